@@ -46,19 +46,32 @@ example : fitsPrec 6 1 = true := by
   simp [pow10]
 
 /-- **sufficient precision**: the relative error of write-then-read is at most half a unit of the
-`P`-th digit, `|read (write d) − d| ≤ |d| / (2·10^(P-1))`.  With `precision = 17` this is below
-`2⁻⁵³·|d|`, half the spacing of the doubles around `d`: the nearest double of the value read is `d`
-(that last rounding is libc's `strtod`; the driver checks it on the implementation, clause
-`double_roundtrip`). -/
-theorem toString_relative_error (prec : Nat) (a : Rat) (ha : 0 < a) :
-    ∃ v, toDouble '.' 'e' (toStringPrec prec false a) = some v ∧
-      |v - a| ≤ a / (2 * (10 : ℚ) ^ ((if prec = 0 then 1 else prec) - 1)) :=
-  ⟨_, toString_parses_to_rounded prec false a (le_of_lt ha), roundedValue_error prec a ha⟩
+`P`-th digit, `|read (write d) − d| ≤ |d| / (2·10^(P-1))`, for `d = ±a` of either sign. -/
+theorem toString_relative_error (prec : Nat) (neg : Bool) (a : Rat) (ha : 0 < a) :
+    ∃ v, toDouble '.' 'e' (toStringPrec prec neg a) = some v ∧
+      |v - (if neg then -a else a)| ≤ a / (2 * (10 : ℚ) ^ ((if prec = 0 then 1 else prec) - 1)) :=
+  ⟨_, toString_parses_to_rounded prec neg a (le_of_lt ha), roundedValue_error_signed prec neg a ha⟩
 
-/-- 17 digits: the error bound is below half an ulp (`10¹⁶ > 2⁵³`) -/
+/-- 17 digits: the error bound is below a quarter of `2⁻⁵²·|d|` (`10¹⁶ > 2⁵³`) -/
 theorem seventeen_digits_suffice (a : Rat) (ha : 0 < a) :
     a / (2 * (10 : ℚ) ^ (17 - 1)) < a / 2 ^ 53 / 2 := by
   rw [div_div, div_lt_div_iff_of_pos_left ha (by positivity) (by positivity)]
   norm_num
+
+/-- **`toString(d, 17)` then `toDouble`**: the value read is within `2⁻⁵⁴·|d|` of `d`, strictly.
+The doubles next to a normal `d` are at distance at least `2⁻⁵³·|d|` (`2⁻⁵⁴·|d|`·2; half of that
+when `d` is a power of two, below it), so `d` is the only double within that distance and the
+correctly rounded conversion of the value read gives `d` back.  THAT LAST STEP IS NOT A THEOREM HERE:
+the set of doubles and rounding to nearest are not modelled (strtod is libc's); the driver checks it
+on the implementation for every sampled double (clause `double_roundtrip`).
+FULL statement (not proved): `∀ finite double d, strtod (toString (d, 17)) = d`. -/
+theorem toString17_within_quarter_ulp_partial (neg : Bool) (a : Rat) (ha : 0 < a) :
+    ∃ v, toDouble '.' 'e' (toStringPrec 17 neg a) = some v ∧
+      |v - (if neg then -a else a)| < a / 2 ^ 53 / 2 := by
+  obtain ⟨v, hv, hb⟩ := toString_relative_error 17 neg a ha
+  refine ⟨v, hv, lt_of_le_of_lt ?_ (seventeen_digits_suffice a ha)⟩
+  simpa using hb
+
+example : (0 : ℚ) < 3602879701896397 / 36028797018963968 := by norm_num
 
 end Bpp.C17
